@@ -80,6 +80,7 @@ class BodyPart:
 
     _content_disposition: Optional[Tuple[str, Dict[str, str]]] = None
     _data: Optional[bytes] = None
+    _data_too_large: bool = False
     _filename: UnsetOr[Optional[str]] = _UNSET
     _media: UnsetOr[Any] = _UNSET
     _name: UnsetOr[Optional[str]] = _UNSET
@@ -139,9 +140,15 @@ class BodyPart:
             bytes: The body part content.
         """
         if self._data is None:
+            # NOTE: The stream has been consumed up to the limit by then; do
+            #   not mistake what is left of it for the content.
+            if self._data_too_large:
+                raise MultipartParseError(description='body part is too large')
+
             max_size = self._parse_options.max_body_part_buffer_size + 1
             data = self.stream.read(max_size)
             if len(data) >= max_size:
+                self._data_too_large = True
                 raise MultipartParseError(description='body part is too large')
 
             # NOTE: Only cache content that has passed the size check.
